@@ -34,16 +34,24 @@ import (
 type c20Plan struct {
 	N        int   `json:"n"`
 	T        int   `json:"t"`
-	Tape     []int `json:"tape"`               // delivery order of the original ceremony
-	Batches  int   `json:"batches"`            // signing batches appended to the original log
-	Junk     int   `json:"junk"`               // junk messages interleaved into the original log
-	Adapt014 bool  `json:"adapt_014"`          // strip self-confirmations and PubPolyBz (a v0.1.4 log), then GetAdaptedReDKG
-	Proposer int   `json:"proposer"`           // which new node posts the reinit message
-	Recorded bool  `json:"recorded"`           // use the recorded client/test_data/0_1_4_log.csv instead of a generated ceremony
-	CLI      bool  `json:"cli"`                // build the reinit file with the compiled dc4bc_dkg_reinitializer from a CSV dump and check the compiled CLI's hash
-	Prior    bool  `json:"prior"`              // the original machines completed another round before the one that is re-initialised
-	Restart  bool  `json:"restart,omitempty"`  // the re-initialised airgapped machines are restarted (reopen + documented log replay) before they are asked to sign
-	DupInit  bool  `json:"dup_init,omitempty"` // the board re-delivers the round's opening proposal once more after the ceremony has begun (live nodes refuse the copy)
+	Tape     []int `json:"tape"`      // delivery order of the original ceremony
+	Batches  int   `json:"batches"`   // signing batches appended to the original log
+	Junk     int   `json:"junk"`      // junk messages interleaved into the original log
+	Adapt014 bool  `json:"adapt_014"` // strip self-confirmations and PubPolyBz (a v0.1.4 log), then GetAdaptedReDKG
+	Proposer int   `json:"proposer"`  // which new node posts the reinit message
+	Recorded bool  `json:"recorded"`  // use the recorded client/test_data/0_1_4_log.csv instead of a generated ceremony
+	CLI      bool  `json:"cli"`       // build the reinit file with the compiled dc4bc_dkg_reinitializer from a CSV dump and check the compiled CLI's hash
+	Prior    bool  `json:"prior"`     // the original machines completed another round before the one that is re-initialised
+	// Reseed: one operator types set_seed with the same mnemonic a second time on the restored machine before the
+	// re-initialisation; NodeRestart: every node is stopped and started again after it processed the re-initialisation
+	// message and before its operator fetches the operation (which must still be offered)
+	// Overlap (n >= 3): the dump holds two overlapping rounds - a round with another threshold is proposed
+	// first, the re-initialised round (everybody) is proposed and completed next, the first one completes after it
+	Overlap     bool `json:"overlap,omitempty"`
+	Reseed      bool `json:"reseed,omitempty"`
+	NodeRestart bool `json:"node_restart,omitempty"`
+	Restart     bool `json:"restart,omitempty"`  // the re-initialised airgapped machines are restarted (reopen + documented log replay) before they are asked to sign
+	DupInit     bool `json:"dup_init,omitempty"` // the board re-delivers the round's opening proposal once more after the ceremony has begun (live nodes refuse the copy)
 	// Old014 (with Adapt014): bit i set = only participant i still ran 0.1.4 in the original ceremony (its deals carry no
 	// self-confirmation, its key announcement no polynomial); 0 = everybody did
 	Old014  int  `json:"old_014,omitempty"`
@@ -53,11 +61,18 @@ type c20Plan struct {
 
 func c20Gen(rt *rapid.T) c20Plan {
 	nt := rapid.SampledFrom([][2]int{{2, 2}, {3, 2}, {3, 3}, {4, 2}, {4, 3}}).Draw(rt, "nt")
-	return c20Plan{N: nt[0], T: nt[1], Tape: rapid.SliceOfN(rapid.IntRange(0, 1000), 0, 60).Draw(rt, "tape"),
+	p := c20Plan{N: nt[0], T: nt[1], Tape: rapid.SliceOfN(rapid.IntRange(0, 1000), 0, 60).Draw(rt, "tape"),
 		Batches: rapid.IntRange(0, 2).Draw(rt, "batches"), Junk: rapid.IntRange(0, 3).Draw(rt, "junk"),
 		Adapt014: rapid.Bool().Draw(rt, "adapt"), Proposer: rapid.IntRange(0, nt[0]-1).Draw(rt, "proposer"), Prior: rapid.IntRange(0, 2).Draw(rt, "prior") == 0, CLI: rapid.IntRange(0, 3).Draw(rt, "cli") == 0,
 		DupInit: rapid.IntRange(0, 3).Draw(rt, "dupInit") == 0, Restart: rapid.Bool().Draw(rt, "restartAfter"),
+		Overlap: rapid.IntRange(0, 4).Draw(rt, "overlap") == 0,
+		Reseed:  rapid.IntRange(0, 2).Draw(rt, "reseed") == 0, NodeRestart: rapid.IntRange(0, 2).Draw(rt, "nodeRestart") == 0,
 		Aborted: rapid.SampledFrom([]int{0, 0, 0, 1, 2}).Draw(rt, "aborted"), Old014: rapid.SampledFrom([]int{0, 0, 1, 2, 3, 4, 5, 6}).Draw(rt, "old014"), Twins: rapid.IntRange(0, 3).Draw(rt, "twins") == 0}
+	if p.Overlap {
+		// a dump with two overlapping rounds is drawn without the other complications of a dump
+		p.Aborted, p.Junk, p.DupInit, p.Prior, p.Batches = 0, 0, false, false, 0
+	}
+	return p
 }
 
 // c20AbortedAttempt runs, on the original board, a key generation of the same participants that one faulty airgapped
@@ -193,12 +208,61 @@ func c20Original(p c20Plan, root string) (o c20Orig) {
 		time.Sleep(time.Hour)
 	}
 	roundStart := w.Board.Len()
-	round, err := w.StartDKG(0, p.T, nil)
+	proposer := 0
+	firstRound := ""
+	if p.Overlap && p.N >= 3 {
+		// (everybody takes part in both rounds; the thresholds differ, so do the polynomials. With an outsider in the dump's
+		// other round the outsider's re-initialisation fails on the unchanged tree - its node collects that round's broadcast
+		// operations and its machine cannot place itself in it; the statement speaks of the dump of one ceremony plus junk,
+		// so that case is noted in DESIGN.md and not asserted)
+		otherT := 2
+		if p.T == 2 {
+			otherT = 3
+		}
+		if firstRound, err = w.StartDKG(0, otherT, nil); err != nil {
+			o.Err = fmt.Errorf("overlapping round: %w", err)
+			return
+		}
+		w.PollAll()
+		proposer, priorLen = p.N-1, 0
+		p.Tape, p.Batches = nil, 0
+	}
+	round, err := w.StartDKG(proposer, p.T, nil)
 	if err != nil {
 		o.Err = err
 		return
 	}
 	o.Round = round
+	if p.Overlap && p.N >= 3 {
+		if err := w.QuiesceRound(round, 100); err != nil {
+			o.Err = fmt.Errorf("overlapping rounds, the later one first: %w", err)
+			return
+		}
+		// now the members of the first round finish it (the last participant is not one of them and leaves it alone)
+		for r := 0; r < 100; r++ {
+			progress := w.PollAll()
+			for i := 0; i < p.N; i++ {
+				ops, _ := w.Nodes[i].Operations()
+				for _, op := range ops {
+					if op.DKGIdentifier != firstRound {
+						continue
+					}
+					if _, err := w.Answer(i, op); err != nil {
+						o.Err = fmt.Errorf("overlapping rounds, finishing the earlier one: participant %d: %w", i, err)
+						return
+					}
+					progress++
+				}
+			}
+			if progress == 0 {
+				break
+			}
+		}
+		if s := w.StateOf(0, firstRound); s != "stage_signing_idle" {
+			o.Err = fmt.Errorf("overlapping rounds: the earlier round ended in %q", s)
+			return
+		}
+	}
 	junk := p.Junk
 	dupPending := p.DupInit
 	redeliver := func() {
@@ -266,9 +330,11 @@ func c20Original(p c20Plan, root string) (o c20Orig) {
 		}
 		redeliver()
 	}
-	if err := w.Quiesce(100); err != nil {
-		o.Err = err
-		return
+	if firstRound == "" {
+		if err := w.Quiesce(100); err != nil {
+			o.Err = err
+			return
+		}
 	}
 	for i := range w.Nodes {
 		if s := w.StateOf(i, round); s != "stage_signing_idle" {
@@ -328,6 +394,16 @@ func c20Reinit(p c20Plan, o c20Orig, cfg world.Config, log []storage.Message) (o
 		return
 	}
 	defer w.Close()
+	if p.Reseed {
+		m := w.Machines[p.Proposer%w.N]
+		if err := m.M.SetBaseSeed(m.Mnemonic); err == nil {
+			err = m.M.GenerateKeys()
+		}
+		if err != nil {
+			obs.Err = fmt.Errorf("set_seed a second time: %w", err)
+			return
+		}
+	}
 	newKeys := map[string][]byte{}
 	for i, nd := range w.Nodes {
 		newKeys[w.Names[i]] = nd.KeyPair.Pub
@@ -394,6 +470,15 @@ func c20Reinit(p c20Plan, o c20Orig, cfg world.Config, log []storage.Message) (o
 		return
 	}
 	w.PollAll()
+	if p.NodeRestart {
+		for i := range w.Nodes {
+			if err := w.RestartNode(i); err != nil {
+				obs.Err = fmt.Errorf("restarting node %d after the reinit message: %w", i, err)
+				return
+			}
+		}
+		w.PollAll()
+	}
 	// every operator sees one reinit operation, compares the hash, and carries it to the machine
 	for i := range w.Nodes {
 		ops, err := w.Nodes[i].Operations()
@@ -408,7 +493,11 @@ func c20Reinit(p c20Plan, o c20Orig, cfg world.Config, log []storage.Message) (o
 			}
 		}
 		if len(reinitOps) != 1 {
-			obs.Viol = violf("no-reinit-operation", "node %d offers %d reinit operations after processing the reinit message (all operations: %d)", i, len(reinitOps), len(ops))
+			key := "no-reinit-operation"
+			if p.NodeRestart {
+				key = "pending-reinit-operation-lost-on-restart"
+			}
+			obs.Viol = violf(key, "node %d offers %d reinit operations after processing the reinit message (all operations: %d; node restarted meanwhile: %v)", i, len(reinitOps), len(ops), p.NodeRestart)
 			return
 		}
 		obs.Hashes = append(obs.Hashes, reinitOps[0].ExtraData)
@@ -612,6 +701,15 @@ func c20Run(t *testing.T, st *vstat.Stats, p c20Plan) *viol {
 		return obs.Viol
 	}
 	st.Class(fmt.Sprintf("adapt014=%v", p.Adapt014 || p.Recorded))
+	if p.Reseed {
+		st.Class("mnemonic-entered-twice-before-reinit")
+	}
+	if p.NodeRestart {
+		st.Class("nodes-restarted-with-the-reinit-operation-pending")
+	}
+	if p.Overlap && p.N >= 3 {
+		st.Class("dump-with-two-overlapping-rounds")
+	}
 	if p.Adapt014 && !p.Recorded && p.Old014%(1<<uint(p.N)) != 0 {
 		st.Class("dump-of-a-partly-upgraded-ceremony")
 	}
